@@ -477,7 +477,10 @@ def zoomImage3 (gout : Grid) (im : Img) (opt : ZoomOpt) : Vol :=
       | _ => 1
     if scale != 1 then t3.map fun pl => pl.map fun row => row.map (· * scale) else t3
 
-/-- `zoom_image(PixelsOnCartesianGrid& out, const PixelsOnCartesianGrid& in, ZoomOptions)` (zoom.cxx:425-478) on one plane -/
+/-- `zoom_image(PixelsOnCartesianGrid& out, const PixelsOnCartesianGrid& in, ZoomOptions)` (zoom.cxx:425-478) on one plane.
+    The plain-copy shortcut needs BOTH offsets to be 0 (and both zooms 1, equal index ranges): `C15_zoom_image2_shortcut_only_identity`.
+    Compared with the implementation through the transaxial one-call variant (`zoom 2d`) and directly, plane by plane into a re-used
+    output plane (`zoom pl`). -/
 def zoomImage2 (gout : Grid) (gi : Grid) (pl : List (List Rat)) (opt : ZoomOpt) : List (List Rat) :=
   let zx := fl32 (gi.vx / gout.vx)
   let zy := fl32 (gi.vy / gout.vy)
